@@ -192,6 +192,13 @@ def run_doc(args):
                 if again is not new:
                     bad.append(('%s: a second unit-fix pass over %s changes it again' % (fname, new), {'where': 'mixfix'}))
                 if rng.random() < 0.6:
+                    # a piecewise whose CONDITION compares a variable with a literal bound written in a differently scaled unit
+                    wv = m.add_variable('c18$cmpw%d' % j, 'dimensionless')
+                    cond = some < m.create_quantity(0.05, m.units.get_unit(uname))
+                    eqc = sympy.Eq(wv, sympy.Piecewise((m.create_quantity(1.0, 'dimensionless'), cond),
+                                                       (m.create_quantity(2.0, 'dimensionless'), True)))
+                    m.add_equation(m.units.convert_expression_recursively(eqc, None))
+                if rng.random() < 0.6:
                     # a power whose exponent is ONE number in a scaled dimensionless unit (50 [percent]): the pass makes the
                     # exponent a plain number, and that number is a quantity of the model too
                     if not m.units.is_defined('c18_pc'):
